@@ -10,11 +10,10 @@
    invariant), [links_clean] (targets are stored cleaned, as Symlink stores them), the view root is a
    directory.  No hypothesis on permissions: any user.
 
-   What is NOT covered: walks the kernel refuses with ELOOP (more than 40 links; the implementation
-   allows 64 - [C04_refuted_budget]); paths that are not of the form "/c1/.../cn" with proper names
-   (handled by Clean: C01_unclean); EvalSymlinks' error KIND on a loop. *)
+   Both budgets are 40 followed links; ELOOP is part of the agreement.  What is NOT covered: paths that are not of
+   the form "/c1/.../cn" with proper names (handled by Clean: C01_unclean); EvalSymlinks' error KIND on a loop. *)
 From Avfs Require Import Base PathModel PathSpec PathProofs PathCleanProofs PathIterProofs.
-From Avfs Require Import MemFS MemFile World Posix WalkBridge WalkSym WalkBudget WalkReadlink.
+From Avfs Require Import MemFS MemFile World Posix Inv WalkBridge WalkSym WalkBudget WalkReadlink WalkRel StepEq WalkInv.
 
 (* the search-permission test is the same function on both sides *)
 Theorem C04_perm_agree : forall (m : meta) (u : user),
@@ -43,16 +42,17 @@ Theorem C04_bridge_root_unsearchable :
   /\ kwalk (S fk) h (v_user v) kroot pm follow (v_root v) (c :: cs) cnt md = WErr EACCES.
 Proof. exact bridge_root_unsearchable. Qed.
 
-(* goal 2: with symbolic links; SlLstat <-> no-follow, SlStat / SlEval <-> follow *)
+(* goal 2: with symbolic links; SlLstat <-> no-follow, SlStat / SlEval <-> follow.  Both budgets are 40 links
+   FOLLOWED (a final link that is not followed does not count, on either side): ELOOP is part of the agreement.
+   The only premises besides the heap hypotheses are the two model-fuel ones. *)
 Theorem C04_resolve : forall (s : fsys) (sv : sview) (slm : slmode) (cs : list str),
   let v := sv_view sv in
   let h := f_heap s in
-  v_os v = Linux -> walk_wf h -> links_clean h ->
-  node_is_dir h (v_root v) = true ->
+  v_os v = Linux -> walk_wf h -> links_clean h -> node_is_dir h (v_root v) = true ->
   Forall good_comp cs ->
   let K := klookup s sv false (follow_of slm) (abs_path cs) in
   let r := search_node s v (abs_path cs) slm in
-  K <> WErr EFUEL -> K <> WErr ELOOP -> sr_err r <> EFuel ->
+  K <> WErr EFUEL -> sr_err r <> EFuel ->
   walk_rel h (v_user v) (v_root v) (precise_of slm) r K.
 Proof. exact sym_bridge_lookup. Qed.
 
@@ -67,8 +67,40 @@ Theorem C04_resolve_sized : forall (s : fsys) (sv : sview) (slm : slmode) (cs : 
   length cs + 1 + MAXSYMLINKS * T <= WALK_FUEL ->
   let K := klookup s sv false (follow_of slm) (abs_path cs) in
   let r := search_node s v (abs_path cs) slm in
-  K <> WErr ELOOP -> walk_rel h (v_user v) (v_root v) (precise_of slm) r K.
+  walk_rel h (v_user v) (v_root v) (precise_of slm) r K.
 Proof. exact sym_bridge_lookup_sized. Qed.
+
+(* ... on the states of C05: every world satisfying the invariant [Inv] (which every reachable world does: C05_reach),
+   any view, any user; [links_clean] is the one hypothesis that is not part of [Inv] *)
+Theorem C04_resolve_inv : forall (w : world) (vi : nat) (v : view) (cwdn : nat) (slm : slmode) (cs : list str),
+  Inv w -> nth_error (w_views w) vi = Some v -> links_clean (f_heap (w_fs w)) -> Forall good_comp cs ->
+  let s := w_fs w in
+  let sv := {| sv_view := v; sv_cwd := cwdn |} in
+  let K := klookup s sv false (follow_of slm) (abs_path cs) in
+  let r := search_node s v (abs_path cs) slm in
+  K <> WErr EFUEL -> sr_err r <> EFuel ->
+  walk_rel (f_heap s) (v_user v) (v_root v) (precise_of slm) r K.
+Proof. exact Inv_resolve. Qed.
+
+Theorem C04_inv_walk_wf : forall (h : heap), Inv_heap h -> walk_wf h /\ ptr_valid h.
+Proof. intros h I. split; [exact (Inv_heap_walk_wf h I)|exact (Inv_heap_ptr_valid h I)]. Qed.
+
+(* RELATIVE paths: the implementation resolves Abs(cwd, p) lexically from the root, the kernel resolves p from the
+   working-directory node.  They agree when the cwd string is a directory walk (link-free, searchable by the caller)
+   from the root to that node, for every lexically clean relative p (k leading "..", then proper names; or ".") *)
+Theorem C04_resolve_rel : forall (s : fsys) (sv : sview) (slm : slmode) (bs : list str) (x : str),
+  let v := sv_view sv in
+  let h := f_heap s in
+  let p := clean Linux x in
+  v_os v = Linux -> walk_wf h -> links_clean h -> node_is_dir h (v_root v) = true ->
+  kperm h (v_root v) 1 (v_user v) = true ->
+  v_cwd v = abs_path bs -> Forall good_comp bs -> dwalk h (v_user v) (v_root v) bs = Some (sv_cwd sv) ->
+  is_abs Linux p = false ->
+  let K := klookup s sv false (follow_of slm) p in
+  let r := search_node s v p slm in
+  K <> WErr EFUEL -> sr_err r <> EFuel ->
+  walk_rel h (v_user v) (v_root v) (precise_of slm) r K.
+Proof. exact sym_bridge_lookup_rel. Qed.
 
 (* the loop invariant itself, from any synchronised position of the two walks *)
 Theorem C04_resolve_at : forall (h : heap) (v : view),
@@ -77,19 +109,32 @@ Theorem C04_resolve_at : forall (h : heap) (v : view),
   forall (slm : slmode) (fk : nat), sync_goal h v slm fk.
 Proof. exact sym_bridge_at. Qed.
 
-(* between the two budgets the walks differ: a chain of 41 links *)
-Theorem C04_refuted_budget :
-  (let r := search_node (WalkSymExamples.chain_fs 41) WalkSymExamples.adminv (abs_path [WalkSymExamples.nm 0]) SlStat in
-   sr_err r = EFileExists /\ sr_child r = Some 42)
-  /\ klookup (WalkSymExamples.chain_fs 41) (WalkSymExamples.sv_of WalkSymExamples.adminv) false true
-             (abs_path [WalkSymExamples.nm 0]) = WErr ELOOP.
-Proof. exact WalkSymExamples.budget_differs. Qed.
+(* the budgets agree: a chain of 40 links resolves on both sides, the 41st link is refused on both sides *)
+Theorem C04_budget_40_41 :
+  (sr_child (search_node (WalkSymExamples.chain_fs 40) WalkSymExamples.adminv (abs_path [WalkSymExamples.nm 0]) SlStat) = Some 41
+   /\ klookup (WalkSymExamples.chain_fs 40) (WalkSymExamples.sv_of WalkSymExamples.adminv) false true
+              (abs_path [WalkSymExamples.nm 0]) = WNode 0 LNorm (WalkSymExamples.nm 40) 41)
+  /\ (sr_err (search_node (WalkSymExamples.chain_fs 41) WalkSymExamples.adminv (abs_path [WalkSymExamples.nm 0]) SlStat)
+      = ETooManySymlinks
+      /\ klookup (WalkSymExamples.chain_fs 41) (WalkSymExamples.sv_of WalkSymExamples.adminv) false true
+                 (abs_path [WalkSymExamples.nm 0]) = WErr ELOOP).
+Proof. split; [exact WalkSymExamples.budget_agree_40|exact WalkSymExamples.budget_agree_41]. Qed.
 
-(* Readlink after Symlink(t, n) returns Clean(t) (ELOOP if the path to n already crossed 64 links) *)
+(* a link that is not followed does not count: Lstat of a link in a directory reached through exactly 40 links
+   answers the link, on both sides *)
+Theorem C04_lstat_after_40_links :
+  (let r := search_node (WalkSymExamples.corner_fs 40) WalkSymExamples.adminv
+                        (abs_path [WalkSymExamples.nm 0; WalkSymExamples.s_X]) SlLstat in
+   sr_err r = EFileExists /\ sr_child r = Some 42)
+  /\ klookup (WalkSymExamples.corner_fs 40) (WalkSymExamples.sv_of WalkSymExamples.adminv) false false
+             (abs_path [WalkSymExamples.nm 0; WalkSymExamples.s_X]) = WNode 41 LNorm WalkSymExamples.s_X 42.
+Proof. exact WalkSymExamples.lstat_after_40_links. Qed.
+
+(* Readlink after Symlink(t, n) returns Clean(t) *)
 Theorem C04_readlink : forall (s s' : fsys) (v : view) (t n : str),
   v_os v = Linux -> ptr_valid (f_heap s) -> node_is_dir (f_heap s) (v_root v) = true ->
   symlink s v t n = (s', ROk) ->
-  readlink s' v n = RStr (clean Linux t) \/ readlink s' v n = RFail ETooManySymlinks.
+  readlink s' v n = RStr (clean Linux t).
 Proof. exact readlink_after_symlink. Qed.
 
 (* Lstat / Readlink / Remove / Rename / Link / Lchown / Symlink see their paths only through the SlLstat walk *)
